@@ -230,7 +230,7 @@ pub const PROGRAMS: &[&str] = &[
 ];
 
 pub fn gen(tier: Tier, r: &mut Rng, emit: &mut dyn FnMut(String)) {
-    let n = if tier == Tier::Quick { 10 } else { 300 };
+    let n = if tier == Tier::Quick { 10 } else { 400 };
     let o = GenOpts { block_scalars: true, comments: true, breaks: false, anchors: false, multidoc: false, max_depth: 3 };
     let mut made = 0;
     let mut attempts = 0;
@@ -275,10 +275,16 @@ pub fn gen(tier: Tier, r: &mut Rng, emit: &mut dyn FnMut(String)) {
         let prog = prog.as_str();
         // `length` applied directly to a number counts the characters of its spelling (recorded finding N1)
         let numlen = prog.contains("(length?)") && a_items_have_int(&a);
+        let dqlp = dq_lp(&a.docs[0].root) || dq_lp(&b.docs[0].root);
         emit(format!(
             "C26 run {} {} {} {} {} {} {}",
             hex_bytes(prog.as_bytes()),
-            if numlen { "numlen" } else { "-" },
+            match (numlen, dqlp) {
+                (true, true) => "numlen,dq-LP",
+                (true, false) => "numlen",
+                (false, true) => "dq-LP",
+                _ => "-",
+            },
             stream_wire(&a),
             hex_bytes(&render(&a)),
             stream_wire(&b),
@@ -288,7 +294,7 @@ pub fn gen(tier: Tier, r: &mut Rng, emit: &mut dyn FnMut(String)) {
         made += 1;
     }
     // integers beyond 2^53 under navigation programs, JSON given on stdin and as a *.json file
-    let nn = if tier == Tier::Quick { 10 } else { 200 };
+    let nn = if tier == Tier::Quick { 10 } else { 300 };
     let mut i = 0;
     let mut nav_tries = 0;
     while i < nn && nav_tries < nn * 30 {
@@ -319,8 +325,9 @@ pub fn gen(tier: Tier, r: &mut Rng, emit: &mut dyn FnMut(String)) {
         to_json(&tree, &mut js);
         let prog = NAV_PROGRAMS[(i * 7 + r.usize_below(3)) % NAV_PROGRAMS.len()];
         emit(format!(
-            "C26 nav {} - {} {} {} {} {}",
+            "C26 nav {} {} {} {} {} {} {}",
             hex_bytes(prog.as_bytes()),
+            if dq_lp(&a.docs[0].root) || dq_lp(&b.docs[0].root) { "dq-LP" } else { "-" },
             stream_wire(&a),
             hex_bytes(&render(&a)),
             stream_wire(&b),
@@ -328,6 +335,19 @@ pub fn gen(tier: Tier, r: &mut Rng, emit: &mut dyn FnMut(String)) {
             hex_bytes(js.as_bytes())
         ));
         i += 1;
+    }
+}
+
+/// A double-quoted scalar or key written with the short escapes `\L` / `\P` (U+2028 / U+2029): the
+/// JSON output spells it `\u2028` while the same string from a raw source is written raw (finding N2).
+fn dq_lp(n: &PNode) -> bool {
+    let lp = |s: &str| s.contains('\u{2028}') || s.contains('\u{2029}');
+    match n {
+        PNode::Str(s, SStyle::Double { short: true, .. }) => lp(s),
+        PNode::Seq { items, .. } => items.iter().any(|e| dq_lp(&e.1)),
+        PNode::Map { entries, .. } => entries.iter().any(|e| (matches!(e.2, KStyle::Double { short: true, .. }) && lp(&e.1)) || dq_lp(&e.3)),
+        PNode::Anchored(_, x) => dq_lp(x),
+        _ => false,
     }
 }
 
